@@ -509,6 +509,37 @@ example : checkSerializedHeight [3, 0x40, 0x0d, 0x03, 0x51] 200000 = true ∧
     checkSerializedHeight [2, 0x09, 0x00] 9 = false ∧ checkSerializedHeight [4, 0x09, 0x00] 9 = false ∧
     checkSerializedHeight [0x60] 16 = true ∧ checkSerializedHeight [1, 0x10] 16 = false := by decide
 
+/-! ### the clock -/
+
+/-- the description with the node's clock moved -/
+def Desc.atTime (d : Desc) (now : Int) : Desc := { d with C := { d.C with now := now } }
+
+/-- `timeNew` is the only rule that reads the clock -/
+theorem only_timeNew_reads_clock (d : Desc) (now : Int) (r : Rule) (hr : r ≠ .timeNew) :
+    ruleOk r (d.atTime now) = ruleOk r d := by
+  cases r <;> first | exact absurd rfl hr | rfl
+
+/-- a block that is valid stays valid when the clock advances; a block rejected ONLY for being too far in the
+    future becomes valid once the clock has caught up (a rejection for time must leave no trace) -/
+theorem valid_when_clock_advances (d : Desc) (now : Int) (hnow : d.C.now ≤ now) (h : Valid d) : Valid (d.atTime now) := by
+  intro r
+  by_cases hr : r = .timeNew
+  · subst hr
+    have := h .timeNew
+    simp only [ruleOk, Desc.atTime] at this ⊢
+    have h1 := decide_eq_true_iff.mp this
+    exact decide_eq_true_iff.mpr (by omega)
+  · rw [only_timeNew_reads_clock d now r hr]; exact h r
+
+theorem future_block_valid_later (d : Desc) (h : ∀ r, r ≠ .timeNew → ruleOk r d = true) :
+    Valid (d.atTime (d.H.time - MAX_FUTURE_BLOCK_TIME)) := by
+  intro r
+  by_cases hr : r = .timeNew
+  · subst hr
+    simp only [ruleOk, Desc.atTime]
+    exact decide_eq_true_iff.mpr (by omega)
+  · rw [only_timeNew_reads_clock d _ r hr]; exact h r hr
+
 /-! ### composition: the description derived from raw bytes through the sibling models (C08, C09, C13, C03, C14) -/
 
 section raw
@@ -616,6 +647,18 @@ theorem validBlock_from_raw_block (n : Net) (now : Int) (g : Chain.Blk RawBody) 
 theorem active_sound_raw (n : Net) (now : Int) (g : Chain.Blk RawBody) (bs : List (Chain.Blk RawBody)) :
     Lemmas.AllValid (DRaw n now) g (Chain.run (Lemmas.oracleOf (DRaw n now)) g bs).best :=
   active_sound (DRaw n now) g (contextFree_raw n now) bs
+
+/-- completeness on raw data: a new raw block whose parent is indexed and whose whole path — derived from the
+    bytes — satisfies every rule is never rejected -/
+theorem valid_block_accepted_raw (n : Net) (now : Int) (g : Chain.Blk RawBody) (bs : List (Chain.Blk RawBody))
+    (b : Chain.Blk RawBody) (p : Chain.Node RawBody)
+    (hnew : Chain.lookup (Chain.run (Lemmas.oracleOf (DRaw n now)) g bs) b.hash = none)
+    (hno : (Chain.run (Lemmas.oracleOf (DRaw n now)) g bs).orphans.any (fun o => o.hash == b.hash) = false)
+    (hp : Chain.lookup (Chain.run (Lemmas.oracleOf (DRaw n now)) g bs) b.parent = some p)
+    (hv : Lemmas.AllValid (DRaw n now) g (b :: p.blk :: p.anc)) :
+    (Chain.step (Lemmas.oracleOf (DRaw n now)) (Chain.run (Lemmas.oracleOf (DRaw n now)) g bs) b).2 = .mainChain ∨
+    (Chain.step (Lemmas.oracleOf (DRaw n now)) (Chain.run (Lemmas.oracleOf (DRaw n now)) g bs) b).2 = .sideChain :=
+  valid_block_accepted (DRaw n now) g (contextFree_raw n now) bs b p hnew hno hp hv
 
 end raw
 
